@@ -20,7 +20,7 @@ add("C02", "x_parse", MC, "bounded exhaustive input enumeration compared per exe
 add("C03", "x_parse", MC, "bounded exhaustive enumeration of malformed inputs (all short strings, near-miss values in contexts, every single-edit corruption of seed texts) against a permissive reference grammar",
     "Everything outside the permissive dialect L must return NULL from every entry point with an unchanged allocation ledger; deep-nesting prefixes are refused without stack exhaustion.", PARSE_NOTE, "DESIGN.md §3 C03")
 add("C10", "x_parse", MC, "bounded exhaustive input enumeration with relational oracle on parse end / error pointer / termination flag",
-    "For every enumerated buffer: end pointer range, prefix re-parse equality, exact characterisation of require_null_terminated, error pointer == *return_parse_end inside the buffer, NULL error pointer after success, independence of the return_parse_end argument.", PARSE_NOTE, "DESIGN.md §3 C10")
+    "For every enumerated buffer: end pointer range, end == end of the first value according to an independent scanner, prefix re-parse equality, exact characterisation of require_null_terminated (also after literals that set errno=ERANGE), error pointer == *return_parse_end inside the buffer, NULL error pointer after success, independence of the return_parse_end argument.", PARSE_NOTE, "DESIGN.md §3 C10")
 
 PRINT_NOTE = ("Trusted: gcc ASan/UBSan, guard pages and the allocation ledger as memory oracles; the harness' strict decoder S; libc strtod/printf. Trees are bounded by the node bound and the stated leaf/key alphabets; "
               "doubles by the sweep (every binary exponent x mantissa patterns, decimal grids, dense low/high binades); only the C locale exists in this image.")
@@ -31,24 +31,25 @@ add("C04", "x_print", MC, "bounded exhaustive enumeration of trees x print confi
 add("C05", "x_print", MC, "bounded exhaustive enumeration of trees x print configurations, every output fed to an independent strict RFC 8259 decoder",
     "Same tree space (valid UTF-8 strings) plus non-finite numbers: every output must be accepted by the independent strict decoder and decode to the tree's value, formatted minus whitespace outside strings must equal unformatted byte for byte, all buffered/preallocated variants must equal the plain ones, integer-valued numbers print as plain decimals.", PRINT_NOTE, "DESIGN.md §3 C05")
 add("C09", "x_print", MC, "bounded exhaustive enumeration of trees x every caller-buffer length 0..len+16 x both formats with the buffer flush against a guard page",
-    "cJSON_PrintPreallocated on a buffer of exactly n bytes whose end touches a PROT_NONE page, canary before it, pre-filled with non-zero bytes: no fault, true only with the exact zero-terminated text, true for n >= len+1+5, monotone in n, negative length / NULL refused; raw items included.", PRINT_NOTE, "DESIGN.md §3 C09")
+    "cJSON_PrintPreallocated on a buffer of exactly n bytes whose end touches a PROT_NONE page, canary before it, pre-filled with non-zero bytes: no fault, true only with the exact zero-terminated text, true for n >= len+1+5, monotone in n, negative length / NULL refused; raw items, string items without text and object members without a name included.", PRINT_NOTE, "DESIGN.md §3 C09")
 
 HIST_NOTE = ("Trusted: the harness' list/map model (Appendix B of DESIGN.md), gcc ASan/UBSan, the allocation ledger, read-only pages for borrowed memory. Bounded by depth, <= 7 nodes / 3 roots per state and the stated operation alphabet; "
              "histories respect the documented ownership rules (no attach of an attached item, no edit of a tree while a reference borrows from it).")
 add("C06", "x_hist", MC, "explicit-state breadth-first search over the real edit API (states de-duplicated by canonical tree text), every transition compared with a list/map model",
-    "All histories up to depth 3 (thorough 4) from 5 start states over ~25 API functions with all small arguments (every live node/root, indices -1..size+1, keys a/A/b/B incl. keys aliasing the item's own key, self-insertion, NULL arguments); after every call: return value, full structural walk "
-    "(next/prev/child->prev invariants), node-by-node model comparison, size/index/key/iteration queries.", HIST_NOTE, "DESIGN.md §3 C06")
+    "All histories up to depth 3 (thorough 4) from 5 start states over ~25 API functions with all small arguments (every live node/root, indices -1..size+1, keys a/A/b/B incl. keys aliasing the item's own key, self-insertion, NULL arguments, SetValuestring with a pointer into the node's own stale tail); after every call: return value, full structural walk "
+    "(next/prev/child->prev invariants), node-by-node model comparison, size/index/key/iteration queries. Extra stage: case-sensitive/-insensitive key matching of Get/Has/Detach over all 255x255 single-byte key pairs.", HIST_NOTE, "DESIGN.md §3 C06")
 add("C07", "x_hist", MC, "explicit-state BFS over the real API with an allocation-ledger monitor evaluated in every state, under the default and a tagging custom allocator",
     "Same exploration as C06 run under the default allocator and under cJSON_InitHooks with a tagging allocator: at every state live blocks == blocks owned by the live trees, every owned block live, no double/foreign/interior free, borrowed memory in read-only pages, "
-    "print calls with allocation request 1..3 refused release everything exactly once, and deleting all roots returns the ledger to its initial balance.", HIST_NOTE, "DESIGN.md §3 C07")
+    "print calls with allocation request 1..3 refused release everything exactly once, 16 malformed texts x 3 parse entry points are rejected without leaving or double-releasing a block, and deleting all roots returns the ledger to its initial balance.", HIST_NOTE, "DESIGN.md §3 C07")
 add("C11", "x_hist", MC, "explicit-state BFS with cJSON_Duplicate in the alphabet and all later edits on source and copy; plus depth/cycle family on a large stack",
-    "Duplicate(node, 0/1) of every live node in every reachable state (incl. reference nodes, constant keys, borrowed chains): copy equals source under the model, prints identically, compares equal, no sibling links, reference bit cleared, owned blocks disjoint, source unchanged; "
-    "all later edit/delete histories stay consistent with model and ledger. Chains of depth 10..6*CJSON_CIRCULAR_LIMIT, 2-/3-/self-cycles through child, and flat arrays wider than the limit.", HIST_NOTE, "DESIGN.md §3 C11")
+    "Duplicate(node, recurse in {0,1,2,-1}) of every live node in every reachable state (incl. reference nodes, constant keys, borrowed chains): copy equals source under the model, prints identically, compares equal, no sibling links, reference bit cleared, owned blocks disjoint, source unchanged; "
+    "all later edit/delete histories stay consistent with model and ledger. Chains of depth 10..6*CJSON_CIRCULAR_LIMIT, 2-/3-/self-cycles through child, cycles through a reference node built with the public API, over-deep members that follow ordinary siblings, and flat arrays wider than the limit.", HIST_NOTE, "DESIGN.md §3 C11")
 add("C14", "x_hist", MC, "explicit-state BFS over the real API repeated under 8 hook configurations with link-time interposition of malloc/realloc/free",
     "Configurations {default, both custom (tagged blocks), malloc only, free only, custom then NULL, custom then NULL members, custom then malloc only, custom then free only} x all histories to depth 2 (3): with both hooks custom no libc allocator call from library context and no realloc; "
-    "every released block was handed out by the matching allocator (tag check), one-sided configurations route every request through the installed function, reset restores the default; print and Utils results are released with cJSON_free.", HIST_NOTE, "DESIGN.md §3 C14")
+    "every released block was handed out by the matching allocator (tag check), one-sided configurations route every request through the installed function, reset restores the default; print and Utils results are released with cJSON_free. "
+    "Plus 10 broad API scripts (64+-character numbers, large texts, all print variants, Minify, accepted/rejected/whole-document patches, generate/merge/sort/pointer utilities, deep duplicate, malformed texts) under each of the 8 configurations.", HIST_NOTE, "DESIGN.md §3 C14")
 add("C19", "x_hist", MC, "explicit-state BFS alternating sorting calls and edits from every object up to 4 (5) members over 6 keys",
-    "Start states: all objects with <= 4 (thorough 5) members over keys {a,A,b,B,c,\"\"} with duplicates, plus nested/paired objects; alternating layers of sorting calls (SortObject cs/ci, patch test, patch generation, merge-patch generation) and the full edit alphabet: "
+    "Start states: all 2801 objects with <= 4 members over keys {a,A,b,B,_,\"\",\"\\u00e9\"} with duplicates, the 2-3 member ones also nested under constant/owned keys, plus nested/paired objects (thorough: one more alternation layer); alternating layers of sorting calls (SortObject cs/ci, patch test, patch generation, merge-patch generation) and the full edit alphabet: "
     "sorted permutation of the same nodes, idempotent, structural walk, and list-model agreement of every later append/insert/detach/replace/print/delete.", HIST_NOTE, "DESIGN.md §3 C19")
 
 add("C08", "x_fault", "fault_enumeration", "exhaustive single-fault enumeration: every allocation request index of every scenario refused in turn, two allocator configurations",
@@ -58,7 +59,7 @@ add("C08", "x_fault", "fault_enumeration", "exhaustive single-fault enumeration:
     "Trusted: the allocation ledger, ASan/UBSan, structural walk. Deviation bound = 1 refused request (thorough: suffix of refused requests); scenario list is finite and stated.", "DESIGN.md §3 C08")
 add("C12", "x_compare", MC, "all ordered pairs of exhaustively enumerated trees x both case modes against reference equality",
     "All trees with <= 3 nodes over 19 leaves (numbers 1, 1+eps, 1+2eps, 1e300 and neighbour, denormal pair, 5e-324, inf, NaN, strings, raw) and keys {a,A,b} (thorough: <= 4 nodes over a reduced alphabet), one-member objects over every single-byte key; every ordered pair x {case-sensitive, -insensitive}, "
-    "second tree in one of three ownership variants: Compare(a,b) == Compare(b,a) == model, reflexive, variants equal, NULL/invalid false, arguments unchanged.",
+    "second tree in one of three ownership variants: Compare(a,b) == Compare(b,a) == model, reflexive, variants equal, NULL/invalid (type 0, two type bits, string without text) false, arguments unchanged; trees nested CJSON_NESTING_LIMIT deep.",
     "Trusted: reference equality in the harness (relative-epsilon rule evaluated in long double; pairs the statement leaves open are not asserted).", "DESIGN.md §3 C12")
 add("C13", "x_minify", MC, "bounded exhaustive byte strings (safety, guard pages on both sides) and token x gap-filler combinations (value preservation) through cJSON_Minify",
     "Safety: all strings up to 6 (thorough 7) bytes over the 13 bytes that steer the scanner, terminator as last accessible byte and mirrored placement. Value: token lists of all trees <= 4 nodes x 13 string-literal variants (escaped quotes/backslashes, comment look-alikes) with gaps from 12 fillers "
@@ -69,9 +70,10 @@ UT_NOTE = ("Trusted: the harness' RFC 6901/6902/7396 reference evaluators on a p
            "Bounded by the document node bound, key/leaf alphabets and pointer/patch alphabets stated in the evidence.")
 add("C15", "x_utils", MC, "bounded exhaustive documents x pointer strings against an RFC 6901 reference resolver; all (root,node) pairs for construction",
     "3356 documents (all trees <= 3 nodes over leaves {1,\"s\"} and 13 awkward keys incl. '', '/', '~', '~0', '~1', '01', '-') plus a 30-element array, a 2-element array and a nested array of objects x every pointer string over {/,~,0,1,2,a,A,-} up to length 4 (thorough 5) "
-    "and 1320 special strings (leading zeros, trailing garbage, overflowing indices, bad escapes): returned node pointer must equal the reference. FindPointerFromObjectTo for every node: exact text, resolves back, foreign node -> NULL.", UT_NOTE, "DESIGN.md §3 C15")
+    "and 1320 special strings (leading zeros, trailing garbage, overflowing indices, bad escapes): returned node pointer must equal the reference, on the document built with owned keys and on the same document built with constant keys. FindPointerFromObjectTo for every node (incl. two documents nested CJSON_NESTING_LIMIT deep): exact text, resolves back, foreign node -> NULL.", UT_NOTE, "DESIGN.md §3 C15")
 add("C16", "x_utils", MC, "bounded exhaustive documents x patch documents against an RFC 6902 reference evaluator",
     "All 1918 documents <= 3 nodes x every single-operation patch over one-token paths; 332 documents x every single operation over two-token paths/froms; all two-operation patches over existing/insertable paths; every JSON object with <= 3 (4) members over {op,path,from,value,x} x 18 values as patch (array-wrapped and bare). "
+    "Every other case builds document and patch with constant keys; the one-token stage is repeated under the tagging custom allocator (no libc call, no foreign free); an index stage covers overflowing / malformed array index tokens in every operation. "
     "Status 0 iff reference succeeds and then equal documents (objects as sets); always: no crash, structural walk, patch unchanged in value, balanced ledger. One recorded known finding (copy/move to the whole document).", UT_NOTE, "DESIGN.md §3 C16")
 add("C17", "x_utils", MC, "all ordered pairs of enumerated documents through patch generation, result validated by the library and by an independent evaluator",
     "All ordered pairs of the 1918 documents <= 3 nodes over leaves {null,1,1e-20,3e-20,\"s\"} and keys {a,A,b,a/b,m~n,''} (thorough: + documents <= 4 nodes): generated patch is an array, empty iff equal, transforms source into target under both evaluators; inputs equal in value, walk ok, still appendable/printable/deletable.", UT_NOTE, "DESIGN.md §3 C17")
@@ -79,7 +81,7 @@ add("C18", "x_utils", MC, "all ordered pairs of enumerated documents through mer
     "All ordered (target, patch) and (from, to) pairs over the 1918 documents plus 500+ nested objects whose keys differ only by case / are non-ASCII and carry null members: MergePatchCaseSensitive == reference merge; generated merge patch applied by library and reference yields 'to' (to without null members); inputs unchanged in value and healthy.", UT_NOTE, "DESIGN.md §3 C18")
 
 add("C20", "x_sched", MC, "preemption-bounded stateless exploration of thread interleavings (cooperative scheduler over real pthreads, scheduling points at every potentially conflicting access to static storage observed through compiler instrumentation) + free-running ThreadSanitizer pass",
-    "All 55 unordered pairs of 10 thread programs (parse/print, failing parse, construction+PrintBuffered, numbers, PrintPreallocated, duplicate+compare, edits, minify, patch generate+apply, merge patch+sort) and 8 triples, each thread on private data that differs per thread: "
+    "All 66 unordered pairs of 11 thread programs (parse/print, failing parse, construction+PrintBuffered, numbers, PrintPreallocated, duplicate+compare, edits, minify, patch generate+apply, merge patch+sort, whole-document patches) and 8 triples, each thread on private data that differs per thread: "
     "all schedules with <= 3 preemptions (thorough 5; triples 2/3) are executed; per schedule each thread's observation must equal its solo observation; any static byte written by one thread and touched by another (other than the documented error position) is a violation. "
     "The same bodies run truly concurrently under the real ThreadSanitizer runtime as an additional detector.",
     "Trusted: clang's -fsanitize=thread instrumentation reports every load/store of library code; wrapped libc calls (memcpy, memset, strcpy, strcat, strlen, strcmp, strncmp, sprintf) cover static accesses made inside libc; other libc functions are assumed thread-safe when the locale is not changed; sequential consistency at scheduling points (no weak-memory effects); "
